@@ -217,6 +217,21 @@ def jobs(tier, seed=0):
             sts = [s for i, s in enumerate(sts) if (i + seed) % 16 == 0]
         for ci, ch in enumerate(chunks(sts, 24)):
             out.append({'id': f'n3|t{ti}|c{ci}', 'harness': 'vk.kernels.c06:cycles', 'params': {'tree': tree, 'structs': ch}, 'budget_s': 600})
+    # three simulators: a weak connection inside a group and a cycle through it that passes the third simulator (which may or may
+    # not be in that group): the configuration in which group identity matters.  Always complete, also in the quick tier.
+    for ti, tree in enumerate(TREES3):
+        paths = paths_of(tree)
+        nodes = sorted(paths)
+        sts = []
+        for u in nodes:
+            for v in nodes:
+                if u == v or not weak_allowed(paths, u, v):
+                    continue
+                w3 = [x for x in nodes if x not in (u, v)][0]
+                sts.append({f'{u}>{v}': 2, f'{v}>{w3}': 1, f'{w3}>{u}': 1})
+                sts.append({f'{u}>{v}': 2, f'{v}>{w3}': 1, f'{w3}>{u}': 1, f'{v}>{u}': 1})
+        if sts:
+            out.append({'id': f'n3weak|t{ti}', 'harness': 'vk.kernels.c06:cycles', 'params': {'tree': tree, 'structs': sts}, 'budget_s': 300})
     # four simulators: two routes between one pair (one of them may leave the group), optional back edge
     tree4d = [[['A', 'D', 'C'], 'B'], [['A', 'C'], 'B', 'D'], [['A', 'B', 'C', 'D']], ['A', 'B', 'C', 'D'], [['A', 'C'], ['B', 'D']],
               [['A', ['D', 'C']], 'B']]
